@@ -1,7 +1,7 @@
 (* C19 Non-interference of peeks, misses, rejected inserts and absent-key erases. *)
 Require Import Capp.Base Capp.Spec.
 Require Import Capp.ListCache Capp.ListCacheFacts Capp.Rr Capp.RrFacts Capp.Lfuda Capp.LfudaFacts.
-Require Import Capp.TtlLru Capp.TtlLruFacts Capp.UtMap Capp.UtMapFacts.
+Require Import Capp.TtlLru Capp.TtlLruFacts Capp.TtlLruBisim Capp.UtMap Capp.UtMapFacts.
 
 (* ---- the six non-TTL caches: the STATE is unchanged, so every later operation returns what
    it would have returned had the call not been made ---- *)
@@ -88,3 +88,29 @@ Proof.
         (conj (@tl_rejected_insert_noop K V E) (@tl_erase_absent_noop K V E))))).
 Qed.
 Print Assumptions C19_tlru_utlru_no_effect_calls.
+
+(* tlru / utlru: removing expired entries is unobservable.  [tl_sim]: same configuration and
+   the same LIVE entries in the same recency order.  A reaping lookup leads to a related
+   state; related states give the same result for every later call and stay related, except
+   exactly: size()/empty(), the count of clean_expired_values() (a size() difference), and an
+   update-only insert or an erase addressed to a key expired-but-resident on one side. *)
+Theorem C19_tlru_utlru_reaping_leads_to_related_state :
+  forall (K V : Type) (E : EqDec K) u t now (s : tl K V) k,
+    tl_inv u t s -> dead_in s now k -> tl_sim u t now s (tl_erase_key s k).
+Proof. exact @tl_reap_related. Qed.
+Print Assumptions C19_tlru_utlru_reaping_leads_to_related_state.
+
+Theorem C19_tlru_utlru_related_states_stay_related_over_time :
+  forall (K V : Type) (E : EqDec K) u t now now' (s1 s2 : tl K V),
+    tl_sim u t now s1 s2 -> (now <= now')%Z -> tl_sim u t now' s1 s2.
+Proof. exact @tl_sim_later. Qed.
+Print Assumptions C19_tlru_utlru_related_states_stay_related_over_time.
+
+Theorem C19_tlru_utlru_reaping_is_unobservable :
+  forall (K V : Type) (E : EqDec K) u t now (s1 s2 : tl K V) o rnd s1' r1 s2' r2,
+    tl_sim u t now s1 s2 -> (t <= now)%Z -> single o = true ->
+    tl_step s1 o now rnd = (s1', r1) -> tl_step s2 o now rnd = (s2', r2) ->
+    (~ result_excepted s1 s2 now o -> r1 = r2) /\
+    (~ effect_excepted s1 s2 now o -> tl_sim u now now s1' s2').
+Proof. exact @tl_reaping_unobservable. Qed.
+Print Assumptions C19_tlru_utlru_reaping_is_unobservable.
